@@ -196,6 +196,8 @@ def prop(case):
         exp_t = np.full((s_len, npat), 2)
         exp_r = np.full((s_len, npat), 2)
         exp_l = np.full((s_len, npat), -1)      # -1: not compared
+        exp_lf = np.full((s_len, npat), -1)     # the same with both filters replacing unknown / unassigned values by 0
+        fill = lambda v: 0 if v in (1, 2) else v
         for i, pat in enumerate(case['pats']):
             loaded = {}
             for j, ch in enumerate(chains):
@@ -230,20 +232,28 @@ def prop(case):
                 if a in (1, 2) or z in (1, 2): return 1
                 iv, fv = (a >> 1) & 1, z & 1
                 return (iv << 1) | fv | (4 if iv != fv else 0)
+            sigf = rm.evalmv(nl, [fill(x) for x in pi_codes], [fill(x) for x in st_codes])
             for k in range(len(nl['st'])):
                 nxt = rm.enc(sig[nl['st'][k]['d']]) if both_pulse else st_codes[k]
                 exp_l[st_rows[k], i] = trans(st_codes[k], nxt)
+                nxtf = rm.enc(sigf[nl['st'][k]['d']]) if both_pulse else st_codes[k]       # without both pulses the launch value is the (unfiltered) load
+                exp_lf[st_rows[k], i] = trans(fill(st_codes[k]), fill(nxtf))
             if 'P' in cap_pi:
                 for k in range(nl['pi']):
                     if first_pi[k] == 'P' or cap_pi[k] == 'P':
                         continue
                     exp_l[pi_rows[k], i] = trans(CHARCODE[first_pi[k]], CHARCODE[cap_pi[k]])
+                    exp_lf[pi_rows[k], i] = trans(fill(CHARCODE[first_pi[k]]), fill(CHARCODE[cap_pi[k]]))
 
         # ---- compare ---------------------------------------------------------------------------------
         def cmp(name, got, exp):
             got = np.array(got)
             if got.shape != (s_len, npat):
                 raise Violation(f'{tag}{name}: shape {got.shape}, expected ({s_len} ports+state elements in s_nodes order, {npat} patterns)\n{text}')
+            if 'filters' not in name:      # documented: tests / tests_loc leave the primary outputs unassigned, responses the primary inputs
+                for r in (pi_rows if name.startswith('responses') else po_rows):
+                    if any(int(x) != 2 for x in got[r]):
+                        raise Violation(f'{tag}{name}: row {r} ({c.s_nodes[r].name}) = {got[r].tolist()}, documented as left unassigned (2)\n{text}')
             for r in range(s_len):
                 for i in range(npat):
                     e = exp[r, i]
@@ -256,6 +266,15 @@ def prop(case):
         if order == 1:                     # any call order, repeated calls and pass-through filters give the same arrays
             cmp('responses (called first)', sf.responses(c), exp_r)
             cmp('tests_loc (called second)', sf.tests_loc(c, init_filter=lambda a: a, launch_filter=lambda a: a), exp_l)
+            calls = []
+
+            def zero_fill(a):               # the documented use of the filters: fill the patterns
+                calls.append(np.array(a).shape)
+                a = np.array(a)
+                return np.where((a == 1) | (a == 2), 0, a).astype(np.uint8)
+            cmp('tests_loc with filling filters', sf.tests_loc(c, init_filter=zero_fill, launch_filter=zero_fill), exp_lf)
+            if calls != [(s_len, npat), (s_len, npat)]:
+                raise Violation(f'{tag}tests_loc: filters called with arrays of shape {calls}, expected one call each with ({s_len}, {npat})')
         elif order == 2:
             cmp('tests_loc (called first)', sf.tests_loc(c), exp_l)
             cmp('tests (first call)', sf.tests(c), exp_t)
